@@ -213,7 +213,12 @@ def rule_state_get(chk, rid):
         ok = cfg.exit not in cfg.reachable(tsucc)
     chk.ob(rid, f"{STATE}.State.get", ok, "an error state never returns data", fn, m, key="raises")
     txt = U(fn)
-    ok = "entry.get('kind') == 'error'" in txt and "position = Position.from_dict(entry.get('position'))" in txt and "query = entry.get('query')" in txt
+    from ..lib import find_pattern
+    k = find_pattern(fn, "_E.get('kind') == 'error'")
+    ok = bool(k) and bool(find_pattern(fn, "_Pos = Position.from_dict(_E.get('position'))")) and bool(find_pattern(fn, "_Q = _E.get('query')"))
+    if ok:
+        e = k[0][1]["_E"]
+        ok = any(b["_E"] == e for _, b in find_pattern(fn, "_Pos = Position.from_dict(_E.get('position'))")) and any(b["_E"] == e for _, b in find_pattern(fn, "_Q = _E.get('query')"))
     chk.ob(rid, f"{STATE}.State.get", ok, "position/query come from the error entries of the log (last one wins)", fn, m, key="entry")
     ok = "raise self.exception" in txt and "EvaluationException(" in txt
     chk.ob(rid, f"{STATE}.State.get", ok, "re-raises the recorded exception or an EvaluationException", fn, m, key="reraise")
